@@ -73,6 +73,13 @@ type Fault struct {
 	seen                 int
 }
 
+// EnvTrigger runs F once, just before the first request matching (Verb, Resource, Name).
+type EnvTrigger struct {
+	Verb, Resource, Name string
+	F                    func(s *Sim)
+	done                 bool
+}
+
 type Sim struct {
 	mu       sync.Mutex
 	defs     []ResourceDef
@@ -84,6 +91,9 @@ type Sim struct {
 	Log      []LogEntry
 	Faults   []*Fault
 	Env      map[int]func(s *Sim) // run just before request number i (0-based, writes and reads alike)
+	// EnvBefore: outside writers that act just before the first request with a given identity (e.g. between the GET and
+	// the PUT of a read-modify-write of one object); empty fields match anything
+	EnvBefore []*EnvTrigger
 	Server   *httptest.Server
 	watchers map[string][]chan watchEvent
 	Quiet    bool // do not log list/watch
@@ -450,6 +460,12 @@ func (s *Sim) serve(w http.ResponseWriter, r *http.Request) {
 	if f := s.Env[idx]; f != nil {
 		delete(s.Env, idx)
 		f(s)
+	}
+	for _, t := range s.EnvBefore {
+		if !t.done && (t.Verb == "" || t.Verb == verb) && (t.Resource == "" || t.Resource == pp.resource) && (t.Name == "" || t.Name == name) {
+			t.done = true
+			t.F(s)
+		}
 	}
 	key := Key{pp.group, pp.resource, pp.ns, name}
 	e := LogEntry{I: idx, Verb: verb, Group: pp.group, Resource: pp.resource, NS: pp.ns, Name: name}
